@@ -170,6 +170,9 @@ class MultiCategoricalTensorMapper(TensorMapper):
         if not (ser.dtype == 'object' or pd.api.types.is_string_dtype(ser)):
             raise ValueError('Multi-categorical types expect string as input')
         values = []
+        # NOTE: The bookkeeping below is keyed by index label, so make the
+        # labels positional (they may be arbitrary or contain duplicates).
+        ser = ser.reset_index(drop=True)
         original_index = ser.index
         ser = ser.apply(lambda row: MultiCategoricalTensorMapper.split_by_sep(
             row, sep=self.sep))
